@@ -240,8 +240,16 @@ fn loop_shape_cases(run: &Run, fx: &Fx) {
 /// the same batch with a last member paying one unit too little.  The engine's oracles compare fee pool and tips with the
 /// reference after the batch.
 fn large_fee_batches(run: &Run, thorough: bool) {
+    // a multiple of 65536 (no minimum has a fraction) and two multipliers that are not: there the minimum of every member is
+    // rounded down on its own, so the fee pool of a batch of n differs by up to n - 1 units from a pool credited with the rounded
+    // minimum of the batch's total weight (seed C05-r13-2)
+    for mult in [65536u128 * 3, 1_000_003, 99_991] {
+        large_fee_batches_at(run, thorough, mult);
+    }
+}
+
+fn large_fee_batches_at(run: &Run, thorough: bool, mult: u128) {
     use crate::stf::*;
-    let mult: u128 = 65536 * 3;
     let (_w, rootn) = root(NetID::Custom02, mult, false);
     let eng = Engine::new(run);
     let open = match eng.step(&rootn, &Action::Open) {
@@ -277,7 +285,7 @@ fn large_fee_batches(run: &Run, thorough: bool) {
             }
         }
     }
-    run.set("large_fee_batches", json!({"fee_multiplier": mult.to_string(), "pool_sizes": [1, 2, 3, 4, 5, 16], "batches": batches}));
+    run.set(&format!("large_fee_batches_m{}", mult), json!({"fee_multiplier": mult.to_string(), "pool_sizes": [1, 2, 3, 4, 5, 16], "batches": batches}));
 }
 
 pub fn run(run: &Run) {
